@@ -4,8 +4,8 @@ import (
 	"fmt"
 	"go/ast"
 	"go/token"
-	"os"
 	"go/types"
+	"os"
 	"sort"
 	"strings"
 
